@@ -60,6 +60,8 @@ def clause_props(name):
         return {'C18'}
     if 'C18-' in name:
         return {'C18'}
+    if 'C19-' in name:
+        return {'C19'}
     if '/post:Inv/I3' in name or '/post:Inv/I4' in name or 'hold_timer.' in name or 'ka_timer.' in name or \
             'keep_alive_time' in name or 'fsm.hold_time' in name:
         out |= {'C01', 'C03'}
